@@ -7,6 +7,8 @@ Theorem int_kmer_roundtrip s : dec_int_kmer (enc_int_kmer s) = Some s.
 Proof. reflexivity. Qed.
 Theorem varint_kmer_roundtrip s : dec_varint_kmer (enc_varint_kmer s) = Some s.
 Proof. reflexivity. Qed.
+Theorem kmer_roundtrip s : dec_int_kmer (enc_int_kmer s) = Some s /\ dec_varint_kmer (enc_varint_kmer s) = Some s.
+Proof. split; reflexivity. Qed.
 Theorem exts_roundtrip v : dec_exts (enc_exts v) = Some v.
 Proof. reflexivity. Qed.
 Theorem dir_roundtrip d : dec_dir (enc_dir d) = Some d.
